@@ -275,6 +275,36 @@ func defaultToken(owner, field string) token.Token {
 
 // fixup repairs leftovers that would not print: empty literals etc.
 func fixup(n ast.Node) {
+	// a literal cannot be received from, dereferenced or called: such operands become
+	// identifiers (the same identifier for the same literal text, so that structurally
+	// equal operands stay equal); their declarations come from the menus
+	litIdent := func(e ast.Expr) ast.Expr {
+		if bl, ok := e.(*ast.BasicLit); ok {
+			sum := 0
+			for _, c := range []byte(bl.Value) {
+				sum = sum*31 + int(c)
+			}
+			return &ast.Ident{Name: fmt.Sprintf("gsxv9%d", sum%1000)}
+		}
+		return e
+	}
+	ast.Inspect(n, func(x ast.Node) bool {
+		switch x := x.(type) {
+		case *ast.UnaryExpr:
+			if x.Op == token.ARROW || x.Op == token.AND {
+				x.X = litIdent(x.X)
+			}
+		case *ast.StarExpr:
+			x.X = litIdent(x.X)
+		case *ast.CallExpr:
+			x.Fun = litIdent(x.Fun)
+		case *ast.SelectorExpr:
+			x.X = litIdent(x.X)
+		case *ast.IndexExpr:
+			x.X = litIdent(x.X)
+		}
+		return true
+	})
 	// functions whose body returns values get a matching result list
 	fixResults := func(ft *ast.FuncType, body *ast.BlockStmt) {
 		if ft == nil || body == nil || ft.Results != nil {
